@@ -4,6 +4,7 @@ from __future__ import annotations
 from core import Case, Failure
 
 PROP = "C17"
+CONSTS = ['mem']          # constant tables of the models this property depends on
 RULE = ("formatter inputs: boundary values of widths 12/16/32 (0, +-1, 2^(n-1)+-1, 2^n+-1, negative, over-wide) plus "
         "random; thorough: all 2^12 and 2^16 values exhaustively at their widths; memory tables: random write "
         "histories, the table keys/values compared with the backing store; non-trivial = value with a set bit "
